@@ -40,6 +40,142 @@ def _rules(c):
     return [(m, t) for m, t in c['rules']]
 
 
+def oracles():
+    """the property evaluated on the implementation: name -> function(case) -> None | description of the failure"""
+    pt, mass_calc, constants, chem_calc, chem_constants, chem_util, pp, Mod, Interval = E.pt_mods()
+    from peptacular.sequence import sequence_funcs
+
+    def o_condense(c):
+        a = _ann(c)
+        before = annot.dump(a)
+        ex = E.explicit_form(a, _rules(c))
+        got = a.condense_static_mods(inplace=False)
+        if annot.dump(got) != annot.dump(ex):
+            return f'condensed {annot.dump(got)} != explicit form {annot.dump(ex)}'
+        if got.static_mods is not None:
+            return 'static rules still present after condensing'
+        if annot.dump(a) != before:
+            return 'condense_static_mods(inplace=False) changed its argument'
+        s = sequence_funcs.condense_static_mods(a.serialize())
+        if s != ex.serialize():
+            return f'condense_static_mods on the string gave {s}, explicit form is {ex.serialize()}'
+        b = copy.deepcopy(a)
+        b.condense_static_mods(inplace=True)
+        if annot.dump(b) != annot.dump(ex):
+            return 'inplace=True result differs from the explicit form'
+        return None
+
+    def o_mass(c):
+        a = _ann(c)
+        ex = E.explicit_form(a, _rules(c))
+        for ion in IONS:
+            for mono in (True, False):
+                for use in ((False, True) if a.isotope_mods else (False,)):
+                    m1 = mass_calc.mass(a, ion_type=ion, monoisotopic=mono, use_isotope_on_mods=use)
+                    m2 = mass_calc.mass(ex, ion_type=ion, monoisotopic=mono, use_isotope_on_mods=use)
+                    if abs(m1 - m2) > 1e-6:
+                        return f'mass ion={ion} monoisotopic={mono} use_isotope_on_mods={use}: rule form {m1!r} != explicit form {m2!r}'
+        return None
+
+    def o_comp(c):
+        a = _ann(c)
+        ex = E.explicit_form(a, _rules(c))
+        for ion in IONS:
+            for use in ((False, True) if a.isotope_mods else (False,)):
+                c1, d1 = mass_calc.comp_mass(a, ion, use_isotope_on_mods=use)
+                c2, d2 = mass_calc.comp_mass(ex, ion, use_isotope_on_mods=use)
+                if c1 != c2 or abs(d1 - d2) > 1e-9:
+                    return f'comp_mass ion={ion} use_isotope_on_mods={use}: rule form {(c1, d1)} != explicit form {(c2, d2)}'
+        return None
+
+    def frag_key(f):
+        return (f.ion_type, f.start, f.end, f.charge, f.isotope, f.loss)
+
+    def o_frag(c):
+        a = _ann(c)
+        ex = E.explicit_form(a, _rules(c))
+        for mono in (True, False):
+            try:
+                f1 = pt.fragment(copy.deepcopy(a), ['b', 'y', 'c', 'z', 'a', 'x'], [1, 2], monoisotopic=mono)
+            except ValueError as e1:
+                # fragment refuses ambiguous sequences (unknown-position / interval mods): then it must refuse both forms
+                try:
+                    pt.fragment(copy.deepcopy(ex), ['b', 'y'], [1], monoisotopic=mono)
+                except ValueError as e2:
+                    if str(e1) == str(e2):
+                        return None
+                return f'fragment raised {e1!r} for the rule form only'
+            f2 = pt.fragment(copy.deepcopy(ex), ['b', 'y', 'c', 'z', 'a', 'x'], [1, 2], monoisotopic=mono)
+            k1 = [frag_key(f) for f in f1]
+            k2 = [frag_key(f) for f in f2]
+            if k1 != k2:
+                return 'fragment lists have different keys'
+            for x, y in zip(f1, f2):
+                if abs(x.mz - y.mz) > 1e-6 or abs(x.mass - y.mass) > 1e-6:
+                    return (f'fragment {x.label} monoisotopic={mono}: rule form mz {x.mz!r} != explicit form {y.mz!r}')
+        return None
+
+    def o_count(c):
+        a = _ann(c)
+        ex = E.explicit_form(a, _rules(c))
+        c1 = sequence_funcs.count_residues(a)
+        c2 = sequence_funcs.count_residues(ex)
+        if c1 != c2:
+            return f'count_residues: rule form {dict(c1)} != explicit form {dict(c2)}'
+        if sum(c1.values()) != len(a.sequence):
+            return 'count_residues does not count every residue once'
+        return None
+
+    iso = constants.ISOTOPIC_ATOMIC_MASSES
+
+    def label_delta(lab):
+        return iso[lab] - iso[E.LABEL_ELEMENT[lab]]
+
+    def o_label(c):
+        a = _ann(c)
+        labs = c['labels']
+        fast = mass_calc.mass(a)                      # neutral, unlabelled, fast path (tabulated masses of named mods)
+        c0, d0 = mass_calc.comp_mass(a)
+        base = chem_util.chem_mass(c0) + d0           # neutral, unlabelled, through the composition (the path a label takes)
+        if abs(fast - base) > 1e-4:
+            return f'mass {fast!r} and composition mass {base!r} differ by more than 1e-4 (C03)'
+        bare = pp.ProFormaAnnotation(_sequence=a.sequence)
+        backbone = mass_calc.comp(bare)               # residues + termini
+        lab_a = copy.deepcopy(a)
+        lab_a._isotope_mods = [Mod(x, 1) for x in labs]
+        got = mass_calc.mass(lab_a)
+        exp = sum(backbone.get(E.LABEL_ELEMENT[x], 0) * label_delta(x) for x in labs)
+        if abs((got - base) - exp) > 2e-6:
+            return f'labels {labs}: shift {got - base!r}, expected {exp!r} = atoms in residues and termini x isotope difference'
+        # the same through the argument instead of the annotation
+        got2 = mass_calc.mass(a, isotope_mods=[Mod(x, 1) for x in labs])
+        if abs(got2 - got) > 1e-9:
+            return 'isotope_mods argument and <label> in the annotation disagree'
+        # modifications are reached only when requested
+        modc, _ = mass_calc.comp_mass(a)
+        plain = mass_calc.comp(bare)
+        inmods = {k: modc.get(k, 0) - plain.get(k, 0) for k in set(modc) | set(plain)}
+        got3 = mass_calc.mass(lab_a, use_isotope_on_mods=True)
+        exp3 = exp + sum(inmods.get(E.LABEL_ELEMENT[x], 0) * label_delta(x) for x in labs)
+        if abs((got3 - base) - exp3) > 2e-6:
+            return f'labels {labs} use_isotope_on_mods=True: shift {got3 - base!r}, expected {exp3!r}'
+        # absent element: unchanged
+        for x in labs:
+            if backbone.get(E.LABEL_ELEMENT[x], 0) == 0:
+                one = copy.deepcopy(a)
+                one._isotope_mods = [Mod(x, 1)]
+                if abs(mass_calc.mass(one) - base) > 2e-6:
+                    return f'label {x}: peptide without {E.LABEL_ELEMENT[x]} changed mass'
+        # composition: the labelled atoms are renamed, nothing else changes
+        cl, dl = mass_calc.comp_mass(lab_a)
+        if abs(dl - d0) > 1e-9:
+            return 'label changed the delta mass'
+        return None
+
+    return {'condense_is_explicit_form': o_condense, 'mass_rule_vs_explicit': o_mass, 'comp_rule_vs_explicit': o_comp,
+            'fragments_rule_vs_explicit': o_frag, 'count_residues_rule_vs_explicit': o_count, 'label_shift': o_label}
+
+
 def run(chk):
     pt, mass_calc, constants, chem_calc, chem_constants, chem_util, pp, Mod, Interval = E.pt_mods()
     from peptacular.sequence import sequence_funcs
@@ -203,96 +339,19 @@ def run(chk):
 
     # ------------------------------------------------------------------ oracle: rule form vs explicit form on the implementation
     osel = allc if chk.broken() or big else allc[:400]
-
-    def o_condense(c):
-        a = _ann(c)
-        before = annot.dump(a)
-        ex = E.explicit_form(a, _rules(c))
-        got = a.condense_static_mods(inplace=False)
-        if annot.dump(got) != annot.dump(ex):
-            return f'condensed {annot.dump(got)} != explicit form {annot.dump(ex)}'
-        if got.static_mods is not None:
-            return 'static rules still present after condensing'
-        if annot.dump(a) != before:
-            return 'condense_static_mods(inplace=False) changed its argument'
-        s = sequence_funcs.condense_static_mods(a.serialize())
-        if s != ex.serialize():
-            return f'condense_static_mods on the string gave {s}, explicit form is {ex.serialize()}'
-        b = copy.deepcopy(a)
-        b.condense_static_mods(inplace=True)
-        if annot.dump(b) != annot.dump(ex):
-            return 'inplace=True result differs from the explicit form'
-        return None
+    orc = oracles()
+    o_condense, o_mass, o_comp, o_frag, o_count, o_label = (orc[k] for k in (
+        'condense_is_explicit_form', 'mass_rule_vs_explicit', 'comp_rule_vs_explicit', 'fragments_rule_vs_explicit',
+        'count_residues_rule_vs_explicit', 'label_shift'))
 
     chk.oracle('condense_is_explicit_form', osel, o_condense, nontrivial_fn=nontrivial, key_fn=lambda c: c['a'])
 
-    def o_mass(c):
-        a = _ann(c)
-        ex = E.explicit_form(a, _rules(c))
-        for ion in IONS:
-            for mono in (True, False):
-                for use in ((False, True) if a.isotope_mods else (False,)):
-                    m1 = mass_calc.mass(a, ion_type=ion, monoisotopic=mono, use_isotope_on_mods=use)
-                    m2 = mass_calc.mass(ex, ion_type=ion, monoisotopic=mono, use_isotope_on_mods=use)
-                    if abs(m1 - m2) > 1e-6:
-                        return f'mass ion={ion} monoisotopic={mono} use_isotope_on_mods={use}: rule form {m1!r} != explicit form {m2!r}'
-        return None
-
     chk.oracle('mass_rule_vs_explicit', osel, o_mass, nontrivial_fn=nontrivial, key_fn=lambda c: c['a'])
-
-    def o_comp(c):
-        a = _ann(c)
-        ex = E.explicit_form(a, _rules(c))
-        for ion in IONS:
-            for use in ((False, True) if a.isotope_mods else (False,)):
-                c1, d1 = mass_calc.comp_mass(a, ion, use_isotope_on_mods=use)
-                c2, d2 = mass_calc.comp_mass(ex, ion, use_isotope_on_mods=use)
-                if c1 != c2 or abs(d1 - d2) > 1e-9:
-                    return f'comp_mass ion={ion} use_isotope_on_mods={use}: rule form {(c1, d1)} != explicit form {(c2, d2)}'
-        return None
 
     chk.oracle('comp_rule_vs_explicit', osel, o_comp, nontrivial_fn=nontrivial, key_fn=lambda c: c['a'])
 
-    def frag_key(f):
-        return (f.ion_type, f.start, f.end, f.charge, f.isotope, f.loss)
-
-    def o_frag(c):
-        a = _ann(c)
-        ex = E.explicit_form(a, _rules(c))
-        for mono in (True, False):
-            try:
-                f1 = pt.fragment(copy.deepcopy(a), ['b', 'y', 'c', 'z', 'a', 'x'], [1, 2], monoisotopic=mono)
-            except ValueError as e1:
-                # fragment refuses ambiguous sequences (unknown-position / interval mods): then it must refuse both forms
-                try:
-                    pt.fragment(copy.deepcopy(ex), ['b', 'y'], [1], monoisotopic=mono)
-                except ValueError as e2:
-                    if str(e1) == str(e2):
-                        return None
-                return f'fragment raised {e1!r} for the rule form only'
-            f2 = pt.fragment(copy.deepcopy(ex), ['b', 'y', 'c', 'z', 'a', 'x'], [1, 2], monoisotopic=mono)
-            k1 = [frag_key(f) for f in f1]
-            k2 = [frag_key(f) for f in f2]
-            if k1 != k2:
-                return 'fragment lists have different keys'
-            for x, y in zip(f1, f2):
-                if abs(x.mz - y.mz) > 1e-6 or abs(x.mass - y.mass) > 1e-6:
-                    return (f'fragment {x.label} monoisotopic={mono}: rule form mz {x.mz!r} != explicit form {y.mz!r}')
-        return None
-
     chk.oracle('fragments_rule_vs_explicit', osel[:: (1 if big or chk.broken() else 2)], o_frag, nontrivial_fn=nontrivial,
                key_fn=lambda c: c['a'])
-
-    def o_count(c):
-        a = _ann(c)
-        ex = E.explicit_form(a, _rules(c))
-        c1 = sequence_funcs.count_residues(a)
-        c2 = sequence_funcs.count_residues(ex)
-        if c1 != c2:
-            return f'count_residues: rule form {dict(c1)} != explicit form {dict(c2)}'
-        if sum(c1.values()) != len(a.sequence):
-            return 'count_residues does not count every residue once'
-        return None
 
     chk.oracle('count_residues_rule_vs_explicit', osel, o_count, nontrivial_fn=nontrivial, key_fn=lambda c: c['a'])
 
@@ -309,52 +368,6 @@ def run(chk):
         labs = rng.choice(single) if rng.random() < 0.6 else rng.choice(pairs)
         lab_cases.append(_case(a, rules, labels=labs))
         chk.count('label_' + '+'.join(labs))
-
-    iso = constants.ISOTOPIC_ATOMIC_MASSES
-
-    def label_delta(lab):
-        return iso[lab] - iso[E.LABEL_ELEMENT[lab]]
-
-    def o_label(c):
-        a = _ann(c)
-        labs = c['labels']
-        fast = mass_calc.mass(a)                      # neutral, unlabelled, fast path (tabulated masses of named mods)
-        c0, d0 = mass_calc.comp_mass(a)
-        base = chem_util.chem_mass(c0) + d0           # neutral, unlabelled, through the composition (the path a label takes)
-        if abs(fast - base) > 1e-4:
-            return f'mass {fast!r} and composition mass {base!r} differ by more than 1e-4 (C03)'
-        bare = pp.ProFormaAnnotation(_sequence=a.sequence)
-        backbone = mass_calc.comp(bare)               # residues + termini
-        lab_a = copy.deepcopy(a)
-        lab_a._isotope_mods = [Mod(x, 1) for x in labs]
-        got = mass_calc.mass(lab_a)
-        exp = sum(backbone.get(E.LABEL_ELEMENT[x], 0) * label_delta(x) for x in labs)
-        if abs((got - base) - exp) > 2e-6:
-            return f'labels {labs}: shift {got - base!r}, expected {exp!r} = atoms in residues and termini x isotope difference'
-        # the same through the argument instead of the annotation
-        got2 = mass_calc.mass(a, isotope_mods=[Mod(x, 1) for x in labs])
-        if abs(got2 - got) > 1e-9:
-            return 'isotope_mods argument and <label> in the annotation disagree'
-        # modifications are reached only when requested
-        modc, _ = mass_calc.comp_mass(a)
-        plain = mass_calc.comp(bare)
-        inmods = {k: modc.get(k, 0) - plain.get(k, 0) for k in set(modc) | set(plain)}
-        got3 = mass_calc.mass(lab_a, use_isotope_on_mods=True)
-        exp3 = exp + sum(inmods.get(E.LABEL_ELEMENT[x], 0) * label_delta(x) for x in labs)
-        if abs((got3 - base) - exp3) > 2e-6:
-            return f'labels {labs} use_isotope_on_mods=True: shift {got3 - base!r}, expected {exp3!r}'
-        # absent element: unchanged
-        for x in labs:
-            if backbone.get(E.LABEL_ELEMENT[x], 0) == 0:
-                one = copy.deepcopy(a)
-                one._isotope_mods = [Mod(x, 1)]
-                if abs(mass_calc.mass(one) - base) > 2e-6:
-                    return f'label {x}: peptide without {E.LABEL_ELEMENT[x]} changed mass'
-        # composition: the labelled atoms are renamed, nothing else changes
-        cl, dl = mass_calc.comp_mass(lab_a)
-        if abs(dl - d0) > 1e-9:
-            return 'label changed the delta mass'
-        return None
 
     chk.oracle('label_shift', lab_cases if (big or chk.broken()) else lab_cases[:400], o_label,
                nontrivial_fn=lambda c: True, key_fn=lambda c: c['a'] + '+'.join(c['labels']))
@@ -391,5 +404,18 @@ def classify(f):
 
 
 def replay(chk, obj):
-    print(json.dumps(obj, indent=1))
-    return 0
+    """re-evaluate a stored failure on the current implementation: exit 1 (with the VIOLATION line) if it still fails"""
+    if obj.get('kind') != 'oracle':
+        print(json.dumps(obj, indent=1))
+        return 0
+    fn = oracles()[obj['oracle']]
+    try:
+        r = fn(obj['case'])
+    except Exception as e:  # noqa
+        r = f'unexpected {type(e).__name__}: {e}'
+    if r is None:
+        print(f"{PID} replay: {obj['oracle']} holds on this input now")
+        return 0
+    print(f"VIOLATION property={PID} replay={obj.get('path', '<given file>')}")
+    print('  oracle:', r)
+    return 1
